@@ -122,6 +122,7 @@ def _emit(cfgname, out, simulate=None, depth=None, workers=6, timeout=1500, appe
         if p.poll() is None:
             p.kill()
         shutil.rmtree(md, ignore_errors=True)
+        shutil.rmtree(md.rstrip("/") + ".jtmp", ignore_errors=True)
         try:
             os.unlink(cfgname)
         except OSError:
